@@ -312,4 +312,23 @@ pub(crate) mod verif_proofs {
         assert!(s.action.is_none() && s.counter.0.is_none() && s.counter.1.is_none(), "[C06.stored]");
         std::mem::forget(s);
     }
+
+    /// [C06.stored] the same at the resolution limit of f32: a declared probability of the smallest positive
+    /// subnormal (bit pattern 1) or of exactly 1.0 is stored as declared (concrete values: a cheap companion of
+    /// k_state_new that also terminates on code with extra passes over the list)
+    #[kani::proof]
+    #[kani::unwind(15)]
+    pub(crate) fn k_state_new_limits() {
+        let tiny = Trans(7, f32::from_bits(1));
+        let one = Trans(STATE_END, 1.0);
+        let mut m: EnumMap<Event, Vec<Trans>> = enum_map! { _ => vec![] };
+        m[Event::NormalSent].push(tiny);
+        m[Event::Signal].push(one);
+        let s = State::new(m);
+        let Some(l) = &s.transitions[Event::NormalSent.to_usize()] else { panic!("[C06.stored] a declared list is stored") };
+        assert!(l.len() == 1 && l[0].0 == 7 && l[0].1.to_bits() == 1, "[C06.stored] values at the f32 resolution limit are kept");
+        let Some(l) = &s.transitions[Event::Signal.to_usize()] else { panic!("[C06.stored] a declared list is stored") };
+        assert!(l.len() == 1 && l[0].0 == STATE_END && l[0].1 == 1.0, "[C06.stored]");
+        std::mem::forget(s);
+    }
 }
